@@ -91,6 +91,8 @@ def hGenesis : Handler := fun j => do
   let out ← fld j "out"
   let family ← fldStr inp "family"
   let path ← fldStr inp "path"
+  -- paths `mutated` / `epoch` (op phenotype): the harness reports the id the code gave the network (C11 does not
+  -- speak about it there); for the other paths it is the id that was asked for
   let netId ← fldInt inp "netId"
   let gj ← fld inp "genome"
   let g := genomeBits (← parseGenome gj)
@@ -150,7 +152,7 @@ def hGenesis : Handler := fun j => do
       else none
     let diff := netDiff <|> pairDiff <|> idDiff <|> cntDiff
     -- C11 on the implementation's network and answers
-    -- every failing clause is collected; clauses with a known-finding signature are reported only if nothing else fails
+    -- every failing clause is collected
     let overlapPair (u v : Int) : Bool :=
       (enabledMods g).any fun m => m.ctrl.id == u && m.ins.any (·.node == v) && m.outs.any (·.node == v)
     let pairLabel (u v : Int) : Option String :=
@@ -179,20 +181,23 @@ def hGenesis : Handler := fun j => do
       (if path == "genesis" || cached then [] else ["phenotypeNotCached"]) ++
       -- an absent node / edge must be a nil interface value, not an interface holding a nil pointer
       (if tnE + tnW + tnN == 0 then [] else ["typedNil"])
-    let knownKinds := ["ctrlOverlapEdge", "typedNil"]
+    -- (both were known findings until the repairs 513f15a / 9995670; they keep their own labels and are reported
+    -- after every other kind of failure)
+    let lateKinds := ["ctrlOverlapEdge", "typedNil"]
     let why : Option String :=
-      match fails.find? (fun f => !knownKinds.contains f) with
+      match fails.find? (fun f => !lateKinds.contains f) with
       | some f => some f
       | none => fails.head?
     let hasMod := !(enabledMods g).isEmpty
     let hasDis := g.genes.any (fun x => !x.en)
     let hasRec := g.genes.any (fun x => x.en && (x.recur || x.src == x.dst))
-    let nontriv := hasDis && (hasRec || hasMod) && (enabledGenes g).length ≥ 2
+    let nontriv := if path == "mutated" || path == "epoch" then (enabledGenes g).length ≥ 2 && (hasDis || hasRec)
+      else hasDis && (hasRec || hasMod) && (enabledGenes g).length ≥ 2
     return { corr := diff.isNone, spec := why.isNone, nontrivial := nontriv,
              cls := path ++ (if hasMod then ":mod" else "") ++ (if hasDis then ":dis" else "") ++ (if hasRec then ":rec" else ""),
              detail := (diff.getD "") ++ (match why with | some s => " SPEC: " ++ s | none => "") ++ s!" [{family}]",
              sig := match why with | some s => "genesis:" ++ s | none => "" }
 
-def genesisOps : List (String × Handler) := [("genesis", hGenesis)]
+def genesisOps : List (String × Handler) := [("genesis", hGenesis), ("phenotype", hGenesis)]
 
 end GoNeat.Driver
